@@ -439,10 +439,13 @@ class _LocalSendRecvDepGatherer(
             from pytato.distributed.verify import DuplicateSendError
             raise DuplicateSendError(f"Multiple sends found for '{send_id}'")
 
+        # Record the send before descending into its data, so that a second
+        # send with the same identifier *inside* that data is diagnosed
+        # instead of being overwritten.
+        self.local_send_id_to_send_node[send_id] = expr.send
+
         self.local_comm_ids_to_needed_comm_ids[send_id] = \
                 self.rec(expr.send.data)
-
-        self.local_send_id_to_send_node[send_id] = expr.send
 
         return self.rec(expr.passthrough_data)
 
